@@ -156,8 +156,11 @@ def masked_array(data, mask=np.ma.nomask, fill_value=None, **kwargs):
 
 def _set_fill_value(x, fill_value):
     if isinstance(x, np.ma.masked_array):
-        x = x.copy()
-        np.ma.set_fill_value(x, fill_value=fill_value)
+        # ``x.copy()`` shares the fill value object with ``x`` and
+        # ``np.ma.set_fill_value`` fills that object in place, which would
+        # change the fill value of the input block (and of the array the
+        # block was sliced from).  Build the copy with its own fill value.
+        x = np.ma.masked_array(x, copy=True, fill_value=fill_value)
     return x
 
 
